@@ -37,7 +37,7 @@ def models():
 
 
 def lattice(tier):
-    vols = ['False', 'True', 'num', 'int2', 'int3', 'obj', 'growing', 'dividing']
+    vols = ['False', 'True', 'num', 'int2', 'int3', 'obj', 'sized-only', 'growing', 'dividing']
     grids = [3, 5, 9] if tier == 'thorough' else [3, 6]
     out = []
     for stochastic, delay, safe, vol, df, via, mname, n in itertools.product(
@@ -46,6 +46,12 @@ def lattice(tier):
         out.append(dict(stochastic=stochastic, delay=delay, safe=safe, volume=vol, dataframe=df, via=via, model=mname, n=n))
         if n == grids[0]:
             out.append(dict(stochastic=stochastic, delay=delay, safe=safe, volume=vol, dataframe=df, via=via, model=mname, n=n, second_call=True))
+            if mname in ('plain', 'rule') and vol in ('False', 'num'):
+                # the same values of the time grid in other array layouts; and a structural edit between two calls on the same Model
+                for gr in ('strided', 'column', 'readonly', 'fortran'):
+                    out.append(dict(stochastic=stochastic, delay=delay, safe=safe, volume=vol, dataframe=df, via=via, model=mname, n=n, grid_repr=gr))
+                if via == 'Model':
+                    out.append(dict(stochastic=stochastic, delay=delay, safe=safe, volume=vol, dataframe=df, via=via, model=mname, n=n, edit_between=True))
     return out
 
 
@@ -62,6 +68,11 @@ def make_volume(kind, m):
     if kind == 'obj':
         v = Volume()
         v.py_set_volume(1.5)
+        return v
+    if kind == 'sized-only':
+        # a growing-volume object that was only given its size (never initialised, so no division time was drawn): it does not divide
+        v = StochasticTimeThresholdVolume(40.0, 3.0, 0.0)
+        v.py_set_volume(1.0)
         return v
     cyc, dv = (4.0, 3.0) if kind == 'growing' else (1.0, 1.3)
     v = StochasticTimeThresholdVolume(cyc, dv, 0.0)
@@ -87,6 +98,16 @@ def run_one(c, opt):
                 continue
             raise RuntimeError('harness: an edit that must be rejected was accepted')
     times = np.linspace(0, 0.25 * (opt['n'] - 1), opt['n'])
+    gr = opt.get('grid_repr')
+    if gr == 'strided':
+        times = np.linspace(0, 0.25 * (2 * opt['n'] - 2) / 2.0, 2 * opt['n'] - 1)[::2]        # a non-contiguous view with the same values
+    elif gr == 'column':
+        tab = np.zeros((opt['n'], 3)); tab[:, 1] = times; times = tab[:, 1]                   # a column of a table
+    elif gr == 'readonly':
+        times = times.copy(); times.setflags(write=False)
+    elif gr == 'fortran':
+        times = np.asfortranarray(np.vstack([times, times]))[0]
+    req_times = np.array(times, dtype=float)
     kw = dict(stochastic=opt['stochastic'], delay=opt['delay'], safe=opt['safe'], return_dataframe=opt['dataframe'])
     vol = make_volume(opt['volume'], m)
     kw['volume'] = vol
@@ -102,6 +123,14 @@ def run_one(c, opt):
         c.violation(key + what, msg, dict(opt=opt))
     try:
         res = py_simulate_model(times, **kw)
+        if opt.get('edit_between'):
+            # a structural edit and an explicit re-initialisation between two calls on the same Model
+            m.create_reaction([A], ['Qnew'], 'massaction', {'k': 0.2})
+            m.set_species({'Qnew': 6.0})
+            m.py_initialize()
+            sp = dict(sp, species=list(sp['species']) + ['Qnew'], x0=dict(sp['x0'], Qnew=6.0))
+            br.py_seed_random(999)
+            res = py_simulate_model(times, **kw)
         if opt.get('second_call'):
             # the same Model / interface again (a fresh volume object): the contract holds for every call, not only the first
             kw['volume'] = make_volume(opt['volume'], m)
@@ -187,7 +216,7 @@ def run(ctx):
     ctx.bounds = dict(option_combinations=len(lat))
     ctx.rule = ('E3/product lattice, exhaustive: {stochastic} x {delay None/False/True} x {safe} x {volume False/True/number (float 2.0, int 2, int 3)/Volume object/'
                 'initialised growing volume (thorough: + dividing)} x {data frame, result object} x {Model, pre-built interface} x 9 models '
-                '(twelve species in a cycle, plain, one with a rule and rejected create_rule / create_reaction calls after it, one whose rules read the volume, delayed reaction, repeated assignment rule, both, a rule due at the start spelled "start" and "0") x grid lengths; every call is made on the real py_simulate_model under a '
+                '(twelve species in a cycle, plain, one with a rule and rejected create_rule / create_reaction calls after it, one whose rules read the volume, delayed reaction, repeated assignment rule, both, a rule due at the start spelled "start" and "0") x grid lengths; every call is made on the real py_simulate_model under a ' 'fixed seed; for two models the time grid is also given as a strided view, a table column, a read-only and a Fortran-ordered array, and a reaction that introduces a species is added (with an explicit re-initialisation) between two calls on the same Model; '
                 'fixed seed, and for one grid length the same call is repeated on the same Model / interface. Oracle: a returned result has the requested time axis (prefix if divided), one column per species in model '
                 'order (+volume when a volume is used; a constant volume given as a number or Volume object is reported with that value), first row = initial condition with rules applied; a refusal must be a ValueError/'
                 'TypeError naming an option (or NotImplementedError raised by the entry point itself). states = transitions = calls; '
